@@ -108,6 +108,18 @@ def run_property(pid, tier, ctx=None, quiet=False):
     for ob, k in knownhits:
         out.append('KNOWN-FINDING: property=%s %s [%s:%s] %s (%s)' % (pid, k['id'], ob.rule, ob.key, k['what'], ob.loc))
     os.makedirs(os.path.join(EVID, 'replay'), exist_ok=True)
+    withheld = []
+    if viol:
+        from sa.framework import unmodelled_constructs
+        um = unmodelled_constructs(ctx)
+        if um:
+            # the tree uses constructs outside the modelled subset: a failed obligation may be the analysis losing
+            # track, not the code being wrong - no verdict (fail closed, exit 2), the constructs are named
+            errors.append('verdict withheld: %d obligation(s) could not be established (%s) and the tree uses '
+                          'constructs outside the modelled subset: %s' % (
+                              len(viol), ', '.join('%s:%s' % (o.rule, o.key) for o in viol[:6]) +
+                              (' ...' if len(viol) > 6 else ''), '; '.join(um[:6]) + (' ...' if len(um) > 6 else '')))
+            withheld, viol = viol, []
     for ob in viol:
         rp = os.path.join(EVID, 'replay', '%s-%s.json' % (pid, safe(ob.rule + '-' + ob.key)))
         with open(rp, 'w') as f:
@@ -160,6 +172,8 @@ def run_property(pid, tier, ctx=None, quiet=False):
     }
     if errors:
         ev['coverage']['analysis_errors'] = errors
+    if withheld:
+        ev['coverage']['verdict_withheld_for'] = ['%s:%s' % (o.rule, o.key) for o in withheld]
     os.makedirs(EVID, exist_ok=True)
     with open(os.path.join(EVID, pid + '.json'), 'w') as f:
         json.dump(ev, f, indent=1, default=str)
